@@ -21,6 +21,7 @@ type Profile struct {
 	MaxOpenQ     int
 	NoFillerBias bool
 	RelBias      int    // percent chance to add a relation component to ID-based creations/additions
+	FixedRelBias int    // percent chance per relation component of a new filter to get a fixed target (default: about 30)
 	Burst        bool   // open bursts of queries up to the limit of 64
 	BigBatches   bool   // batches of up to 90 entities (tables beyond 64 rows)
 	FinalOp      string // extra final operation ("roundtrip")
@@ -802,7 +803,7 @@ func (g *Gen) genFilter(t *rapid.T) *Op {
 			fs.Without = subset(t, g.hot&^fs.Mask(), 1, 1, "without")
 		}
 		for _, c := range listOf(fs.Mask() & comps.RelMask) {
-			if rapid.IntRange(0, 3).Draw(t, "fixedRel") == 0 {
+			if g.fixedRel(t) {
 				fs.Rels = append(fs.Rels, RelSpec{C: c, T: g.pickTarget(t), S: rapid.IntRange(0, 2).Draw(t, "relStyle")})
 			}
 		}
@@ -833,7 +834,7 @@ func (g *Gen) genFilter(t *rapid.T) *Op {
 	}
 	if fs.Inst >= 0 {
 		for _, c := range listOf(mask & comps.RelMask) {
-			if rapid.IntRange(0, 2).Draw(t, "fixedRel") == 0 {
+			if g.fixedRel(t) {
 				fs.Rels = append(fs.Rels, RelSpec{C: c, T: g.pickTarget(t), S: rapid.IntRange(0, 2).Draw(t, "relStyle")})
 			}
 		}
@@ -1458,4 +1459,12 @@ func (g *Gen) genRelScenario(t *rapid.T) *Op {
 	q = append(q, b)
 	g.queue = q[1:]
 	return q[0]
+}
+
+func (g *Gen) fixedRel(t *rapid.T) bool {
+	p := g.P.FixedRelBias
+	if p == 0 {
+		p = 30
+	}
+	return rapid.IntRange(0, 99).Draw(t, "fixedRel") < p
 }
